@@ -18,7 +18,8 @@ QUICK_CROPS = ["Maize", "Wheat", "PaddyRice", "Potato", "Cotton", "SugarBeetGDD"
 
 
 def crops(tier):
-    return QUICK_CROPS if tier == "quick" else [c for c in crop_params.keys()]
+    # the response functions are cheap (seconds for all crops): the whole catalogue in both tiers
+    return [c for c in crop_params.keys()]
 
 
 def _ws_configs(tier):
